@@ -93,7 +93,7 @@ def run_unit(ctx: Ctx, qualname: str) -> None:
         cc0 = interp.class_contract(interp.unit_self)
         for cl in cc0.task_inv.get(fc.task, []):
             interp.assume_clause(cl, {"self": interp.unit_self}, None, mi, f"task invariant {cl.name}")
-    if ctx.check() != z3.sat:
+    if ctx.check_full() != z3.sat:
         ctx.covers[f"{unit}.entry"] = False
         raise PathEnd("precondition unsatisfiable")
     ctx.covers[f"{unit}.entry"] = True
